@@ -1427,6 +1427,47 @@ def rule_pool_joins(ctx, rid, r):
                loc(c, call), "thread is started once and handed back for joining")
 
 
+# ------------------------------------------------------------------------------------------------ C17.K6
+def rule_startup_interrupt(ctx, rid, r):
+    """An exception raised on the calling thread *while the pool is starting its workers* (KeyboardInterrupt in the start
+    loop - the first worker is already executing calls then - or a failing Thread.start) must release the workers that
+    were started before they are joined: on every path from the exceptional out-edge of a thread start to the join
+    loop, the stop flag is set / the sentinels are posted (directly or through a callback handed to the pool)."""
+    m = ctx.model
+    pool = r.pool
+    mod = pool.module
+    g = CFG(pool, may_raise=any_call_may_raise)
+    creators = {t[0] for t in r.thread_sites}
+    starters = [c for c in pool.own_calls() if m.reachable(list(m.callee_funcs(pool, c)), kinds=("call",)) & creators]
+    joins = [c for c in pool.own_calls() if isinstance(c.func, ast.Attribute) and c.func.attr == "join"]
+    jn = set()
+    for j in joins:
+        jn |= set(g.of(stmt_of(mod, j)))
+    release = set()
+    for c in pool.own_calls():
+        posts = bool(ext_names(m, pool, c) & PUT)
+        callback = isinstance(c.func, ast.Name) and c.func.id in pool.params
+        if posts or callback:
+            release |= set(g.of(stmt_of(mod, c)))
+    ctx.floor(rid, "thread start sites in the pool", len(starters), 1)
+    for sc in starters:
+        st = stmt_of(mod, sc)
+        bad = set()
+        for sn in g.of(st):
+            # the start loop itself: an exception at the loop header or at the start of a later worker
+            bad |= g.reach([sn], avoid=release, first_labels={"e"}) & jn
+        p = ""
+        if bad:
+            p = g.fmt_path(g.path(g.of(st)[0], bad, avoid=release, first_labels={"e"}))
+        # keyed by role, not by the pool's current name/spelling: the same defect in a renamed or restructured pool is the same finding
+        ctx.ob(rid, "POOL/startup-interrupt-releases-workers", not bad, loc(pool, sc),
+               "an exception while the workers are being started releases the ones already running before joining them" if not bad else
+               "an exception on the calling thread while the pool is still starting workers (Ctrl-C during the first call, or a failing "
+               "Thread.start) goes straight to joining the workers already started: nothing has set the stop flag or posted the "
+               "sentinels, so those workers run every remaining call and then block in queue.get() forever - run() never returns",
+               "", p)
+
+
 # ------------------------------------------------------------------------------------------------ C07.L7
 def rule_cycle_check_first(ctx, rid, r):
     m = ctx.model
